@@ -1211,7 +1211,18 @@ func (g *G) whileStmt(d int) []*Node {
 	g.loopDepth--
 	delete(g.reserved, ctr)
 	g.reserved[ctr] = true // stays reserved for the rest of the program (keeps the bound valid if re-entered)
-	return []*Node{Set(ctr, Int(0)), N("while", Bin("<", Var(ctr), Int(limit)), body)}
+	// the same bound in several spellings: what the condition begins with (a variable, a literal, a parenthesis, a call)
+	// decides what the first instruction of the loop is, where continue re-enters
+	cond := Bin("<", Var(ctr), Int(limit))
+	switch g.intn(6, "loopCondForm") {
+	case 0:
+		cond = Bin(">", Int(limit), Var(ctr))
+	case 1:
+		cond = Bin("&&", Int(1), Bin("<", Var(ctr), Int(limit)))
+	case 2:
+		cond = Bin("<", Bin("+", Int(0), Var(ctr)), Int(limit))
+	}
+	return []*Node{Set(ctr, Int(0)), N("while", cond, body)}
 }
 
 func (g *G) funcStmt(d int) []*Node {
